@@ -271,6 +271,35 @@ pub fn enumeration_plan(fx: &Fixture) -> Vec<(Obj, Vec<usize>)> {
     plan
 }
 
+/// Every truncation length (short write) of the small objects, and the lengths around every
+/// section boundary of the prover key.
+pub fn truncation_plan(fx: &Fixture) -> Vec<(Obj, usize)> {
+    let mut v = Vec::new();
+    for o in [Obj::Verifier, Obj::Proof, Obj::Params, Obj::Compressed] {
+        for len in 0..fx.files[obj_index(o)].len() {
+            v.push((o, len));
+        }
+    }
+    if let Ok(lay) = strict::prover_strict(&fx.files[0]) {
+        let n = fx.files[0].len();
+        let mut lens: Vec<usize> = (0..64).collect();
+        for (_, off, len) in &lay.sections {
+            for b in [*off, off + len] {
+                for d in 0..48usize {
+                    lens.push((b + d).min(n - 1));
+                    lens.push(b.saturating_sub(d));
+                }
+            }
+        }
+        lens.sort_unstable();
+        lens.dedup();
+        for l in lens {
+            v.push((Obj::Prover, l));
+        }
+    }
+    v
+}
+
 pub fn enum_total(plan: &[(Obj, Vec<usize>)]) -> usize {
     plan.iter().map(|(_, b)| b.len()).sum()
 }
@@ -283,7 +312,7 @@ pub fn enum_runs() -> u64 {
     N.with(|n| {
         if n.get() == 0 {
             let fx = minimal_fixture();
-            n.set(enum_total(&enumeration_plan(&fx)).div_ceil(ENUM_CHUNK) as u64);
+            n.set((enum_total(&enumeration_plan(&fx)) + truncation_plan(&fx).len()).div_ceil(ENUM_CHUNK) as u64);
         }
         n.get()
     })
@@ -292,24 +321,30 @@ pub fn enum_runs() -> u64 {
 fn run_enumeration(ctx: &mut RunCtx) -> Result<(), Violation> {
     let fx = minimal_fixture();
     let plan = enumeration_plan(&fx);
-    let flat: Vec<(Obj, usize)> = plan.iter().flat_map(|(o, bits)| bits.iter().map(move |b| (*o, *b))).collect();
+    // (object, Some(bit) = single-bit flip | None, truncation length)
+    let mut flat: Vec<(Obj, Option<usize>, usize)> = plan.iter().flat_map(|(o, bits)| bits.iter().map(move |b| (*o, Some(*b), 0))).collect();
+    let trunc = truncation_plan(&fx);
+    flat.extend(trunc.iter().map(|(o, l)| (*o, None, *l)));
     let start = ctx.run as usize * ENUM_CHUNK;
     let end = (start + ENUM_CHUNK).min(flat.len());
     let env = EnvCfg::canonical();
     let keep = if ctx.spec.get("keepf").is_some() { Some(ctx.spec.list("keepf")) } else { None };
     ctx.hints.n_faults = end.saturating_sub(start);
-    for (k, (o, bit)) in flat[start.min(flat.len())..end].iter().enumerate() {
+    for (k, (o, bit, tlen)) in flat[start.min(flat.len())..end].iter().enumerate() {
         if let Some(kf) = &keep {
             if !kf.contains(&k) {
                 continue;
             }
         }
-        let fault = DiskFault::BitFlip(*bit);
         let stored = &fx.files[obj_index(*o)];
+        let (fault, what) = match bit {
+            Some(bit) => (DiskFault::BitFlip(*bit), format!("single bit flip at byte {} bit {}", bit / 8, bit % 8)),
+            None => (DiskFault::Truncate(*tlen), format!("short write: first {} of {} bytes", tlen, stored.len())),
+        };
+        let bit = &bit.unwrap_or(*tlen);
         let bytes = disk::apply(stored, &fault, None, None);
-        let what = format!("single bit flip at byte {} bit {}", bit / 8, bit % 8);
         progress_case(ctx.prop, ctx.run, k, &what);
-        ctx.st.fault(&format!("enum.{}.bitflip", o.name()));
+        ctx.st.fault(&format!("enum.{}.{}", o.name(), if matches!(fault, DiskFault::BitFlip(_)) { "bitflip" } else { "short_write" }));
         ctx.note("object", J::s(o.name()));
         ctx.note("fault", J::s(what.clone()));
         // proving with every accepted single-bit neighbour of a prover key costs ~75 ms each:
@@ -322,7 +357,14 @@ fn run_enumeration(ctx: &mut RunCtx) -> Result<(), Violation> {
     ctx.st.probe("enumeration_chunks");
     ctx.st.notes.insert("enum_runs".into(), enum_runs().to_string());
     if ctx.run == 0 {
-        ctx.st.notes.insert("enumerated_subspaces".into(), plan.iter().map(|(o, b)| format!("{}:{} bits", o.name(), b.len())).collect::<Vec<_>>().join(", "));
+        ctx.st.notes.insert(
+            "enumerated_subspaces".into(),
+            format!(
+                "{}; every truncation length of verifier key, proof, parameters and compressed circuit and the lengths within 48 bytes of every section boundary of the prover key ({} short writes)",
+                plan.iter().map(|(o, b)| format!("{}:{} bits", o.name(), b.len())).collect::<Vec<_>>().join(", "),
+                trunc.len()
+            ),
+        );
         ctx.st.sample(J::obj(vec![
             ("enumeration", J::s("every single-bit flip of the minimal deployment's encodings")),
             ("objects", J::A(plan.iter().map(|(o, b)| J::s(format!("{}: {} bits of {} bytes", o.name(), b.len(), fx.files[obj_index(*o)].len()))).collect())),
@@ -385,7 +427,8 @@ pub fn run(ctx: &mut RunCtx) -> Result<(), Violation> {
                     _ => vec![0, stored.len()],
                 };
                 let base = cuts[f.usize(cuts.len())];
-                fault = DiskFault::Truncate((base + f.usize(48)).min(stored.len()));
+                let off = *f.pick(&[0usize, 0, 0, 1, 2, 47, 48]) + if f.chance(1, 4) { f.usize(48) } else { 0 };
+                fault = DiskFault::Truncate((base + off).min(stored.len()));
             }
             let other = &fx.files[(oi + 1 + f.usize(4)) % 5];
             let b = disk::apply(stored, &fault, Some(&fx.old[oi]), Some(other));
